@@ -28,7 +28,10 @@ def p_const(c):
     if k == "int":
         return str(c[1])
     if k == "float":
-        return repr(float(c[1]))
+        # the grammar has no exponent form: positional digits of the shortest round-trip representation
+        from decimal import Decimal
+        t = format(Decimal(repr(float(c[1]))), "f")
+        return t if "." in t else t + ".0"
     if k == "str":
         return "'%s'" % esc(c[1])
     if k == "bool":
@@ -333,13 +336,16 @@ def path_feature(p):
 T1 = tsfmt.instant_of("2017-01-01T00:00:00Z")
 T2 = tsfmt.instant_of("2017-01-01T00:00:00.123456Z")
 T3 = tsfmt.instant_of("2018-01-01T00:00:00Z")
-PRIMS = [("int", 1), ("int", -1), ("int", 0), ("float", 1.5), ("float", -0.5), ("str", "a"), ("str", "it's"), ("str", "back\\slash"), ("str", "both\\'"), ("str", "ü😀"), ("str", ""),
-         ("str", "\\\\host\\share"), ("bool", True), ("bool", False), ("hex", "ab"), ("bin", "YQ=="), ("ts", T1), ("ts", T2), ("ts", T1, "2017-01-01T00:00:00.000Z")]
+PRIMS = [("int", 1), ("int", -1), ("int", 0), ("float", 1.5), ("float", -0.5), ("float", 1e-7), ("float", 1e22), ("float", 0.1), ("int", 2 ** 63), ("str", "a"), ("str", "it's"), ("str", "back\\slash"), ("str", "both\\'"), ("str", "ü😀"), ("str", ""),
+         ("str", "\\\\host\\share"), ("str", "line\nfeed\ttab"), ("bool", True), ("bool", False), ("hex", "ab"), ("bin", "YQ=="), ("ts", T1), ("ts", T2), ("ts", T1, "2017-01-01T00:00:00.000Z")]
 SETS = [("set", (("int", 1), ("int", 2))), ("set", (("str", "a"), ("str", "b'c"))), ("set", (("int", 1),)), ("set", (("ts", T1), ("ts", T3))),
         ("set", (("int", 1), ("str", "x"))), ("set", (("bool", True), ("int", 1), ("float", 1.5))), ("set", (("hex", "ab"), ("hex", "aa"))), ("set", (("str", "a"), ("ts", T1)))]
 PATHS = [(("key", "p"),), (("key", "p"), ("key", "q")), (("key", "p"), ("idx", 1)), (("key", "p"), ("idx", "*"), ("key", "q")), (("key", "p_ref"), ("key", "q")),
          (("key", "k-k"),), (("key", "hashes"), ("key", "SHA-256")), (("key", "hashes"), ("key", "MD5")), (("key", "k k"),), (("key", "k.k"),), (("key", "p"), ("key", "it's")),
-         (("key", "p"), ("idx", 1), ("idx", 2)), (("key", "p"), ("idx", 10), ("key", "q"), ("idx", "*"))]
+         (("key", "p"), ("idx", 1), ("idx", 2)), (("key", "p"), ("idx", 10), ("key", "q"), ("idx", "*")),
+         # steps that are letters / identifiers only outside ASCII, or end in white space: they stay quoted
+         (("key", "p"), ("key", "caf\u00e9")), (("key", "p"), ("key", "\u043a\u043b\u044e\u0447"), ("idx", 1)), (("key", "p"), ("key", "k\n")), (("key", "p"), ("key", "9lives")),
+         (("key", "p"), ("key", "\uff4b\uff11"))]
 OPS = ["=", "!=", "<", "<=", ">", ">=", "IN", "LIKE", "MATCHES", "ISSUBSET", "ISSUPERSET", "EXISTS"]
 
 
